@@ -223,5 +223,60 @@ func c05FoldConstIfs(info *types.Info, body *ast.BlockStmt) bool {
 		})
 	}
 	lists(body)
+	if changed {
+		c05DropUnusedLabels(body)
+	}
 	return changed
+}
+
+// c05DropUnusedLabels unwraps, in place, every labelled statement whose label no branch statement refers to any
+// more (folding `if false { break L }` away leaves `L:` unused, which does not compile).
+func c05DropUnusedLabels(body *ast.BlockStmt) {
+	used := map[string]bool{}
+	ast.Inspect(body, func(n ast.Node) bool {
+		switch t := n.(type) {
+		case *ast.FuncLit:
+			return false
+		case *ast.BranchStmt:
+			if t.Label != nil {
+				used[t.Label.Name] = true
+			}
+		}
+		return true
+	})
+	unwrap := func(list []ast.Stmt) {
+		for i, st := range list {
+			for {
+				ls, ok := st.(*ast.LabeledStmt)
+				if !ok || used[ls.Label.Name] {
+					break
+				}
+				// an unlabelled `break` inside a labelled plain block would change meaning only if the block were a
+				// loop/switch/select itself, which stays one after unwrapping
+				st = ls.Stmt
+				list[i] = st
+			}
+		}
+	}
+	ast.Inspect(body, func(n ast.Node) bool {
+		switch t := n.(type) {
+		case *ast.FuncLit:
+			return false
+		case *ast.BlockStmt:
+			unwrap(t.List)
+		case *ast.CaseClause:
+			unwrap(t.Body)
+		case *ast.CommClause:
+			unwrap(t.Body)
+		case *ast.LabeledStmt:
+			for {
+				ls, ok := t.Stmt.(*ast.LabeledStmt)
+				if !ok || used[ls.Label.Name] {
+					break
+				}
+				t.Stmt = ls.Stmt
+			}
+		}
+		return true
+	})
 }
